@@ -83,8 +83,12 @@ def _run_driver(ctx, binp, cdir, args, label="gatedh"):
     env = dict(os.environ, VERIF_SEED=str(ctx.seed))
     rc, out = V.run([binp, "-out", cdir, "-prefix", "cases"] + args, env=env, timeout=3000)
     if rc != 0:
-        rp = V.write_replay(ctx, "harness-run", {"kind": "correspondence", "output": out[-4000:]})
-        ctx.violations.append({"match": "harness-crash", "replay": rp, "what": "%s crashed (a data race reported by -race also ends here)" % label, "no_input": True})
+        rp = V.write_replay(ctx, "harness-run-" + label, {"kind": "correspondence", "engine": "gatedh-crash", "output": out[-6000:]})
+        if "DATA RACE" in out:
+            ctx.violations.append({"match": "gated:race", "replay": rp, "no_input": False,
+                                   "what": "the race detector reported a data race in gated.Filter while %s ran concurrent senders" % label})
+        else:
+            ctx.violations.append({"match": "gated:harness-crash", "replay": rp, "what": "%s crashed" % label, "no_input": True})
         return None, None, out
     summ = json.load(open(os.path.join(cdir, "cases_summary.json")))
     cases = {}
@@ -151,7 +155,7 @@ def run(ctx, prop=None):
     part = {}
     ctx.coverage["parts"]["gated-correspondence"] = part
     args = list(ARGS[(prop, ctx.tier)])
-    race = ctx.tier == "thorough"
+    race = True   # the concurrent senders always run in a -race instrumented binary: lock-mode mistakes show up only there
     binp = _build(ctx)
     if not binp:
         return
@@ -240,11 +244,15 @@ def run(ctx, prop=None):
 
 
 def handles_replay(rec):
-    return rec.get("engine") == "gatedh"
+    return rec.get("engine") in ("gatedh", "gatedh-crash")
 
 
 def replay(ctx, rec, path):
     """re-run the recorded history on the real filter and on the model, print both"""
+    if rec.get("engine") == "gatedh-crash":
+        print(rec.get("output", ""))
+        print("the record above is the harness output (race detector report / crash); re-run: bin/check %s --tier %s" % (rec.get("property"), rec.get("tier", "quick")))
+        return 0
     binp, out = V.go_build(ctx, "./cmd/gatedh")
     if not binp:
         print(out)
